@@ -410,6 +410,11 @@ func Locations(w *World, v reflect.Value) map[verifsim.FaultKey][]verifsim.WrapE
 	walk = func(v reflect.Value, path []verifsim.WrapElem) {
 		t := v.Type()
 		switch v.Kind() {
+		case reflect.Int:
+			// a fallible leaf between named basic types, keyed by its value
+			if fn, ok := w.LeafFn[t.Name()]; ok {
+				record(verifsim.FaultKey{Fn: fn, ID: int(v.Int())}, path, "")
+			}
 		case reflect.Struct:
 			if fn, ok := w.LeafFn[t.Name()]; ok {
 				id := int(v.FieldByName("ID").Int())
